@@ -1,5 +1,5 @@
 import Lean.Data.Json
-import CardVerif.Model.Basic
+import CardModel.Model.Basic
 /-! JSON helpers for the line protocol (driver only; not part of the verified model). -/
 open Lean
 namespace CardVerif.Codec
